@@ -265,6 +265,7 @@ def run(ctx):
 
 
 def replay(ctx, rp):
+    common.import_eups()
     case = rp["input"]
     steps = _run_one(case)
     ans = ctx.lean.ask(lib_db.model_request(case))
